@@ -401,7 +401,7 @@ theorem deleteInner_typ (m : Incoming) (id : SID) : (m.deleteInner id).1.typ = m
   · rfl
 
 /-- what `accLocked` guarantees on an invariant state -/
-structure AccFacts (first : Int) (m : Incoming) (o : Nat) (r : Incoming × Option Ret × List Frame) : Prop where
+structure AccFacts (first : Int) (m : Incoming) (o : Nat) (c : Nat) (r : Incoming × Option Ret × List Frame) : Prop where
   inv : ∃ a', InCore first r.1 o a'
   credit : CreditStep first m r.1 r.2.2
   ret : ∀ id, r.2.1 = some (.stream id) → id = m.nextAccept ∧ r.1.nextAccept = id + 4
@@ -410,28 +410,35 @@ structure AccFacts (first : Int) (m : Incoming) (o : Nat) (r : Incoming × Optio
   dead : r.1.dead = m.dead
   typ : r.1.typ = m.typ
   maxNum : r.1.maxNum = m.maxNum
+  /-- a ready acceptor of an open map gets the next stream as soon as it is in the map -/
+  progress : ∀ p, m.findAcc c = some p → p.ready = true → m.closeErr = none →
+    (lookup m.streams m.nextAccept).isSome → r.2.1 = some (.stream m.nextAccept)
 
 theorem accLocked_core (first : Int) (hf0 : 0 ≤ first) (hf3 : first ≤ 3) (m : Incoming) (o a : Nat) (c : Nat)
-    (h : InCore first m o a) : AccFacts first m o (m.accLocked c) := by
-  have same : AccFacts first m o (m, none, []) :=
-    ⟨⟨a, h⟩, CreditStep.refl' _ _ _ rfl, by simp, by simp, by simp, rfl, rfl, rfl⟩
+    (h : InCore first m o a) : AccFacts first m o c (m.accLocked c) := by
+  have same : (∀ p, m.findAcc c = some p → p.ready = true → False) → AccFacts first m o c (m, none, []) := fun hno =>
+    ⟨⟨a, h⟩, CreditStep.refl' _ _ _ rfl, by simp, by simp, by simp, rfl, rfl, rfl,
+     fun p h1 h2 _ _ => (hno p h1 h2).elim⟩
   unfold Incoming.accLocked
   cases hf : m.findAcc c with
-  | none => simpa using same
+  | none => exact same (fun p hp _ => by rw [hf] at hp; simp at hp)
   | some p =>
     simp only
     by_cases hr0 : p.ready = false
-    · simpa [hr0] using same
+    · simp only [hr0, Bool.not_false, if_true]
+      exact same (fun p' hp' hr' => by rw [hf] at hp'; simp at hp'; subst hp'; rw [hr0] at hr'; simp at hr')
     have hr : p.ready = true := by simpa using hr0
     simp only [hr, Bool.not_true, Bool.false_eq_true, if_false]
     split
     next e hce =>
-      exact ⟨⟨a, h.congr rfl rfl rfl rfl rfl⟩, CreditStep.refl' _ _ _ rfl, by simp, fun _ => rfl, by simp, rfl, rfl, rfl⟩
+      exact ⟨⟨a, h.congr rfl rfl rfl rfl rfl⟩, CreditStep.refl' _ _ _ rfl, by simp, fun _ => rfl, by simp, rfl, rfl, rfl,
+        fun _ _ _ hc _ => by rw [hce] at hc; simp at hc⟩
     next hce =>
       cases hl : lookup m.streams m.nextAccept with
       | none =>
         simp only
-        exact ⟨⟨a, h.congr rfl rfl rfl rfl rfl⟩, CreditStep.refl' _ _ _ rfl, by simp, fun _ => rfl, by simp, rfl, rfl, rfl⟩
+        exact ⟨⟨a, h.congr rfl rfl rfl rfl rfl⟩, CreditStep.refl' _ _ _ rfl, by simp, fun _ => rfl, by simp, rfl, rfl, rfl,
+          fun _ _ _ _ hs => by rw [hl] at hs; simp at hs⟩
       | some sd =>
         simp only
         have hmem : m.nextAccept ∈ keys m.streams := (lookup_isSome_iff _ _).mp (by simp [hl])
@@ -448,7 +455,7 @@ theorem accLocked_core (first : Int) (hf0 : 0 ≤ first) (hf3 : first ≤ 3) (m 
         cases sd with
         | false =>
           simp only [Bool.false_eq_true, if_false]
-          refine ⟨⟨i + 1, ?_⟩, CreditStep.refl' _ _ _ rfl, ?_, ?_, by simp, rfl, rfl, rfl⟩
+          refine ⟨⟨i + 1, ?_⟩, CreditStep.refl' _ _ _ rfl, ?_, ?_, by simp, rfl, rfl, rfl, fun _ _ _ _ _ => rfl⟩
           · constructor
             · exact h.hopen
             · show m.nextAccept + 4 = first + 4 * ((i + 1 : Nat) : Int); omega
@@ -492,7 +499,7 @@ theorem accLocked_core (first : Int) (hf0 : 0 ≤ first) (hf3 : first ≤ 3) (m 
           have hmn : m'.maxNum = m.maxNum := by
             have := deleteInner_maxNum { m with nextAccept := m.nextAccept + 4 } m.nextAccept
             rw [hd] at this; exact this
-          refine ⟨⟨i + 1, r1.congr rfl rfl rfl rfl rfl⟩, ?_, ?_, ?_, fun _ => hl, ?_, htyp, hmn⟩
+          refine ⟨⟨i + 1, r1.congr rfl rfl rfl rfl rfl⟩, ?_, ?_, ?_, fun _ => hl, ?_, htyp, hmn, fun _ _ _ _ _ => rfl⟩
           · rcases r3 with r3 | r3
             · exact Or.inl r3
             · exact Or.inr r3
